@@ -43,7 +43,7 @@ VARIABLES ev,        \* uid -> [v, eb (enqueue begun), ee (index of enqueue end 
           l
 vars == <<ev, call, dqnB, dqnE, dofB, dofE, sawOk, dqnSeen, mayClear, last, sel, l>>
 
-Idle == [op |-> "idle", at |-> 0, n |-> 0, to |-> FALSE]
+Idle == [op |-> "idle", at |-> 0, n |-> 0, to |-> FALSE, m |-> 0]
 Init == /\ ev = <<>> /\ call = [t \in Threads |-> Idle]
         /\ dqnB = 0 /\ dqnE = 0 /\ dofB = 0 /\ dofE = 0
         /\ sawOk = [t \in Threads |-> FALSE] /\ dqnSeen = [t \in Threads |-> FALSE]
@@ -68,7 +68,7 @@ Refresh(evn, calln, cE, dB, cB, dE) ==
    /\ dqnSeen' = [t \in Threads |-> IF calln[t].op = "wait" THEN (IF call[t].op = "wait" THEN dqnSeen[t] ELSE FALSE) \/ DqnPossiblyAlive(cB, dE) ELSE FALSE]
 Same(evn, calln) == Refresh(evn, calln, dqnE, dofB, dqnB, dofE) /\ UNCHANGED <<dqnB, dqnE, dofB, dofE>>
 
-Begin(t, op) == call[t].op = "idle" /\ call' = [call EXCEPT ![t] = [op |-> op, at |-> l, n |-> 0, to |-> FALSE]]
+Begin(t, op) == call[t].op = "idle" /\ call' = [call EXCEPT ![t] = [op |-> op, at |-> l, n |-> 0, to |-> FALSE, m |-> IF op = "proc" THEN E.a ELSE 0]]
 End(t, op) == call[t].op = op /\ call' = [call EXCEPT ![t] = Idle]
 
 \* ---- enqueue
@@ -91,7 +91,7 @@ EvEnter == /\ Is("en") /\ E.a \in Uids /\ call[E.t].op = "proc"
            /\ ev[E.a].eb /\ ev[E.a].c = "none" /\ E.b = ev[E.a].v               \* never twice, payload intact
            /\ ev' = [ev EXCEPT ![E.a].c = "dispatching", ![E.a].by = E.t]
            /\ call' = [call EXCEPT ![E.t].n = @ + 1]
-           /\ OrderOk(E.t, E.a, E.t \in sel)
+           /\ OrderOk(E.t, E.a, call[E.t].m \in {3, 4})
            /\ Same(ev', call') /\ UNCHANGED <<mayClear, sel>>
 EvRet == /\ Is("rt") /\ E.a \in Uids /\ ev[E.a].c = "dispatching" /\ ev[E.a].by = E.t
          /\ ev' = [ev EXCEPT ![E.a].c = "dispatched"]
